@@ -1,9 +1,936 @@
-// C19: not built yet (stub so that main.rs is already wired; replace the body, keep the two signatures).
-use crate::util::Sink;
+// C19: vertex / trg-scaler CSVs — one row per main event, in run order, with unwrapped time.
+//
+// The harness writes whole MIDAS runs (1..=4 files, `.mid` and `.mid.lz4`), runs the REAL binaries
+// `alpha-g-vertices` and `alpha-g-trg-scalers` (from $VERIF_ANALYSIS_BIN) on them under every order of the
+// file arguments and RAYON_NUM_THREADS in {1,2,5,16}, parses the CSV they write and prints one observation
+// per (run, argument order).  The case line carries the abstract description of the run from which the files
+// are rebuilt deterministically (so a case line replays without the PRNG) and from which the Coq model
+// (coq/Apps/Rows.v, coq/Apps/FileOrder.v) computes the same observation.
+//
+// case lines
+//   c19 <perm> <run>        observation  V=<rows|fail> S=<rows|fail>
+//   relc19t <perm> <run>    vertices CSV byte-identical for RAYON_NUM_THREADS 1,2,5,16 (comment lines stripped)
+//   relc19p <perms> <run>   both CSVs byte-identical for every listed argument order
+//   relc19l <perm> <run>    CSV rows = the scan re-stated here over what the library returns in-process
+// <perm>  = file indices in command-line order, e.g. 2013 (an index may repeat: same file given twice)
+// <run>   = <file>/<file>/...      <file> = run,t0,t1,ext:<ev>;<ev>;...   (ext `-` = no extension)
+// <ev>    = id.kind.vs.serial.ts.in.drift.sd.pulser.out     (decimal; kind = one letter, see `banks`;
+//           vs = two flags: decodable by vertices / by scalers, see `decodable`)
+use crate::util::*;
+use alpha_g_detector::trigger::TrgPacket;
+use alpha_g_physics::MainEvent;
+use std::io::Write;
+use std::path::{Path, PathBuf};
+use std::process::{Command, Stdio};
 
-pub fn run(_tier: &str, _seed: u64, _s: &mut Sink) {}
+pub const THREADS: [u32; 4] = [1, 2, 5, 16];
+const KINDS_OK: [char; 8] = ['g', 'g', 'g', 'g', 'j', 'j', 'j', 'J'];
+const KINDS_BAD: [char; 10] = ['u', 'a', 'c', 'h', 'r', 'm', 't', 'd', 'b', 'c'];
 
-/// implementation observation for a case line of this module (None: not one of mine)
-pub fn observe_line(_line: &str) -> Option<String> {
-    None
+#[derive(Clone, Debug, PartialEq)]
+pub struct Ev {
+    pub id: u16,
+    pub kind: char,
+    pub serial: u32,
+    pub ts: u32,
+    pub inp: u32,
+    pub drift: u32,
+    pub sd: u32,
+    pub pulser: u32,
+    pub out: u32,
+}
+
+#[derive(Clone, Debug, PartialEq)]
+pub struct FileD {
+    pub run: u32,
+    pub t0: u32,
+    pub t1: u32,
+    pub ext: String,
+    pub evs: Vec<Ev>,
+}
+
+// ---------------------------------------------------------------------------------------------
+// case-line syntax
+// ---------------------------------------------------------------------------------------------
+pub fn show_run(fs: &[FileD]) -> String {
+    fs.iter()
+        .map(|f| {
+            let evs: Vec<String> = f
+                .evs
+                .iter()
+                .map(|e| {
+                    // the two flags say whether the vertices / the scalers binary can decode the event:
+                    // they follow from the kind by construction (see `banks`) and are what the model reads
+                    format!(
+                        "{}.{}.{}{}.{}.{}.{}.{}.{}.{}.{}",
+                        e.id,
+                        e.kind,
+                        decodable(e.kind).0 as u8,
+                        decodable(e.kind).1 as u8,
+                        e.serial,
+                        e.ts,
+                        e.inp,
+                        e.drift,
+                        e.sd,
+                        e.pulser,
+                        e.out
+                    )
+                })
+                .collect();
+            let ext = if f.ext.is_empty() { "-" } else { &f.ext };
+            format!("{},{},{},{}:{}", f.run, f.t0, f.t1, ext, evs.join(";"))
+        })
+        .collect::<Vec<_>>()
+        .join("/")
+}
+
+pub fn parse_run(s: &str) -> Option<Vec<FileD>> {
+    let mut out = Vec::new();
+    for f in s.split('/') {
+        let (head, evs) = f.split_once(':')?;
+        let h: Vec<&str> = head.split(',').collect();
+        if h.len() != 4 {
+            return None;
+        }
+        let mut v = Vec::new();
+        for e in evs.split(';').filter(|x| !x.is_empty()) {
+            let p: Vec<&str> = e.split('.').collect();
+            if p.len() != 10 {
+                return None;
+            }
+            v.push(Ev {
+                id: p[0].parse().ok()?,
+                kind: p[1].chars().next()?,
+                serial: p[3].parse().ok()?,
+                ts: p[4].parse().ok()?,
+                inp: p[5].parse().ok()?,
+                drift: p[6].parse().ok()?,
+                sd: p[7].parse().ok()?,
+                pulser: p[8].parse().ok()?,
+                out: p[9].parse().ok()?,
+            });
+        }
+        out.push(FileD {
+            run: h[0].parse().ok()?,
+            t0: h[1].parse().ok()?,
+            t1: h[2].parse().ok()?,
+            ext: if h[3] == "-" { String::new() } else { h[3].to_string() },
+            evs: v,
+        });
+    }
+    Some(out)
+}
+
+fn show_perm(p: &[usize]) -> String {
+    p.iter().map(|i| i.to_string()).collect()
+}
+fn parse_perm(s: &str, n: usize) -> Option<Vec<usize>> {
+    let p: Vec<usize> = s.chars().map(|c| c.to_digit(10).map(|d| d as usize)).collect::<Option<_>>()?;
+    if p.is_empty() || p.iter().any(|&i| i >= n) {
+        return None;
+    }
+    Some(p)
+}
+
+// ---------------------------------------------------------------------------------------------
+// MIDAS writer (midasio 0.5.3 layout: little endian, BANK32 = flags 17, data type 6 = u32 words)
+// ---------------------------------------------------------------------------------------------
+fn trg_words(e: &Ev) -> [u32; 20] {
+    let mut w = [0u32; 20];
+    w[0] = e.serial & 0x7FFF_FFFF;
+    w[1] = 0x8000_0000 | (e.out & 0x0FFF_FFFF);
+    w[2] = e.ts;
+    w[3] = e.out;
+    w[4] = e.inp;
+    w[5] = e.pulser;
+    w[6] = 0x11;
+    w[7] = 0x22;
+    w[8] = 0x33;
+    w[9] = 0x8000_0005;
+    w[10] = e.drift;
+    w[11] = e.sd;
+    w[12] = 0;
+    w[13] = 0x0007_0009;
+    w[14] = 1;
+    w[15] = 2;
+    w[16] = 3;
+    w[17] = 4;
+    w[18] = 0xABCD;
+    w[19] = 0xE000_0000 | (e.out & 0x0FFF_FFFF);
+    w
+}
+fn words_bytes(w: &[u32]) -> Vec<u8> {
+    w.iter().flat_map(|x| x.to_le_bytes()).collect()
+}
+
+/// the banks of an event of the given kind: (name, data)
+///   g  valid TRG bank only                         j  TRBA junk, valid TRG, MCVX junk (both ignored by the library)
+///   J  70 000-byte TRBA bank + valid TRG (spans LZ4 blocks)
+///   u  valid TRG + bank `XYZW` (unknown name)      a  bank `AAAA` (bad trigger name) + valid TRG
+///   c  TRG bank of 76 bytes                        h  TRG bank with a wrong header mark
+///   r  TRG bank with a reserved word set           m  no bank at all
+///   t  only a TRBA bank (TRG missing)              d  two valid TRG banks
+///   b  only a `CBF1` bank
+/// (decodable by alpha-g-vertices, decodable by alpha-g-trg-scalers) for an event built by `banks`:
+/// vertices needs every bank name known and exactly one valid TRG bank; scalers looks at `ATAT` banks only
+pub fn decodable(kind: char) -> (bool, bool) {
+    match kind {
+        'g' | 'j' | 'J' => (true, true),
+        'u' | 'a' => (false, true),
+        _ => (false, false),
+    }
+}
+
+pub fn banks(e: &Ev) -> Vec<(&'static str, Vec<u8>)> {
+    let good = words_bytes(&trg_words(e));
+    let junk = |n: usize| -> Vec<u8> { (0..n).map(|i| (i as u8).wrapping_mul(37).wrapping_add(e.serial as u8)).collect() };
+    match e.kind {
+        'g' => vec![("ATAT", good)],
+        'j' => vec![("TRBA", junk(8)), ("ATAT", good), ("MCVX", junk(12))],
+        // a bank larger than an LZ4 block (64 KiB) and than the decoder's buffer
+        'J' => vec![("TRBA", junk(70_000)), ("ATAT", good)],
+        'u' => vec![("ATAT", good), ("XYZW", junk(4))],
+        'a' => vec![("AAAA", junk(4)), ("ATAT", good)],
+        'c' => vec![("ATAT", good[..76].to_vec())],
+        'h' => {
+            let mut w = trg_words(e);
+            w[1] = 0x9000_0000 | (w[1] & 0x0FFF_FFFF);
+            vec![("ATAT", words_bytes(&w))]
+        }
+        'r' => {
+            let mut w = trg_words(e);
+            w[12] = 1;
+            vec![("ATAT", words_bytes(&w))]
+        }
+        'm' => vec![],
+        't' => vec![("TRBA", junk(16))],
+        'd' => vec![("ATAT", good.clone()), ("ATAT", good)],
+        'b' => vec![("CBF1", junk(8))],
+        _ => vec![],
+    }
+}
+
+fn event_bytes(e: &Ev, unix: u32) -> Vec<u8> {
+    let mut body = Vec::new();
+    for (name, data) in banks(e) {
+        body.extend_from_slice(name.as_bytes());
+        body.extend_from_slice(&6u32.to_le_bytes());
+        body.extend_from_slice(&(data.len() as u32).to_le_bytes());
+        body.extend_from_slice(&data);
+        // midasio pads the DATA area of a bank to a multiple of 8 bytes (the 12-byte header is not counted)
+        for _ in 0..(8 - data.len() % 8) % 8 {
+            body.push(0);
+        }
+    }
+    let mut v = Vec::new();
+    v.extend_from_slice(&e.id.to_le_bytes());
+    v.extend_from_slice(&0u16.to_le_bytes()); // trigger mask
+    v.extend_from_slice(&e.serial.to_le_bytes());
+    v.extend_from_slice(&unix.to_le_bytes());
+    v.extend_from_slice(&((body.len() + 8) as u32).to_le_bytes());
+    v.extend_from_slice(&(body.len() as u32).to_le_bytes());
+    v.extend_from_slice(&17u32.to_le_bytes());
+    v.extend_from_slice(&body);
+    v
+}
+
+pub fn midas_bytes(f: &FileD) -> Vec<u8> {
+    let mut v = Vec::new();
+    let bor = b"begin of run odb dump";
+    v.extend_from_slice(&0x8000u16.to_le_bytes());
+    v.extend_from_slice(&0x494Du16.to_le_bytes());
+    v.extend_from_slice(&f.run.to_le_bytes());
+    v.extend_from_slice(&f.t0.to_le_bytes());
+    v.extend_from_slice(&(bor.len() as u32).to_le_bytes());
+    v.extend_from_slice(bor);
+    for e in &f.evs {
+        v.extend_from_slice(&event_bytes(e, f.t0));
+    }
+    // the final dump is shorter than 8 bytes so that the end-of-run header can never parse as an event
+    let eor = b"eor";
+    v.extend_from_slice(&0x8001u16.to_le_bytes());
+    v.extend_from_slice(&0x494Du16.to_le_bytes());
+    v.extend_from_slice(&f.run.to_le_bytes());
+    v.extend_from_slice(&f.t1.to_le_bytes());
+    v.extend_from_slice(&(eor.len() as u32).to_le_bytes());
+    v.extend_from_slice(eor);
+    v
+}
+
+fn file_name(i: usize, f: &FileD) -> String {
+    // `.mid.lz4` as at the experiment; any other extension replaces the `mid`
+    match f.ext.as_str() {
+        "" => format!("f{i}"),
+        "lz4" => format!("f{i}.mid.lz4"),
+        x => format!("f{i}.{x}"),
+    }
+}
+
+/// write the files of a run into `dir`; returns the file names (relative to dir)
+pub fn write_run(dir: &Path, fs: &[FileD]) -> Vec<String> {
+    std::fs::create_dir_all(dir).unwrap();
+    let mut names = Vec::new();
+    for (i, f) in fs.iter().enumerate() {
+        let name = file_name(i, f);
+        let raw = midas_bytes(f);
+        let bytes = if f.ext == "lz4" {
+            // LZ4 frame format, which is what lz4::Decoder reads
+            let mut enc = lz4::EncoderBuilder::new().level(1).build(Vec::new()).unwrap();
+            enc.write_all(&raw).unwrap();
+            let (out, r) = enc.finish();
+            r.unwrap();
+            out
+        } else {
+            raw
+        };
+        std::fs::write(dir.join(&name), bytes).unwrap();
+        names.push(name);
+    }
+    names
+}
+
+// ---------------------------------------------------------------------------------------------
+// running the binaries, reading their CSV
+// ---------------------------------------------------------------------------------------------
+fn bin_dir() -> PathBuf {
+    if let Ok(d) = std::env::var("VERIF_ANALYSIS_BIN") {
+        return PathBuf::from(d);
+    }
+    // .build/cargo-apps/release/vapps -> .build/cargo-analysis/release
+    let exe = std::env::current_exe().unwrap();
+    exe.parent().unwrap().parent().unwrap().parent().unwrap().join("cargo-analysis").join("release")
+}
+
+#[derive(Clone, Copy, PartialEq)]
+pub enum Bin {
+    Vertices,
+    Scalers,
+}
+impl Bin {
+    fn exe(self) -> &'static str {
+        match self {
+            Bin::Vertices => "alpha-g-vertices",
+            Bin::Scalers => "alpha-g-trg-scalers",
+        }
+    }
+}
+
+static COUNTER: std::sync::atomic::AtomicU64 = std::sync::atomic::AtomicU64::new(0);
+pub static INVOCATIONS: std::sync::atomic::AtomicU64 = std::sync::atomic::AtomicU64::new(0);
+
+/// run one binary; None = non-zero exit status (or killed), Some(csv bytes) otherwise
+pub fn invoke(bin: Bin, dir: &Path, args: &[String], threads: u32) -> Option<Vec<u8>> {
+    let k = COUNTER.fetch_add(1, std::sync::atomic::Ordering::SeqCst);
+    INVOCATIONS.fetch_add(1, std::sync::atomic::Ordering::SeqCst);
+    let stem = format!("out{k}");
+    let csv = dir.join(format!("{stem}.csv"));
+    let _ = std::fs::remove_file(&csv);
+    let st = Command::new(bin_dir().join(bin.exe()))
+        .current_dir(dir)
+        .args(args)
+        .arg("-o")
+        .arg(&stem)
+        .env("RAYON_NUM_THREADS", threads.to_string())
+        .stdin(Stdio::null())
+        .stdout(Stdio::null())
+        .stderr(Stdio::null())
+        .status()
+        .expect("cannot start the analysis binary (VERIF_ANALYSIS_BIN?)");
+    let out = if st.success() { std::fs::read(&csv).ok() } else { None };
+    let _ = std::fs::remove_file(&csv);
+    out
+}
+
+/// the CSV without its `#` comment lines (the second one echoes the command line)
+pub fn strip_comments(csv: &[u8]) -> Vec<u8> {
+    let mut out = Vec::new();
+    for line in csv.split_inclusive(|&b| b == b'\n') {
+        if !line.starts_with(b"#") {
+            out.extend_from_slice(line);
+        }
+    }
+    out
+}
+
+const TRG_CLOCK: f64 = 62.5e6;
+
+/// `trg_time` column -> cumulative ticks; the printed decimal must denote exactly `ticks as f64 / 62.5e6`
+fn ticks_of(s: &str) -> String {
+    match s.parse::<f64>() {
+        Ok(t) if t.is_finite() && t >= 0.0 => {
+            let ticks = (t * TRG_CLOCK).round() as u64;
+            if (ticks as f64 / TRG_CLOCK).to_bits() == t.to_bits() {
+                ticks.to_string()
+            } else {
+                format!("badtime({s})")
+            }
+        }
+        _ => format!("badtime({s})"),
+    }
+}
+
+fn f64_bits(s: &str) -> String {
+    if s.is_empty() {
+        return "-".to_string();
+    }
+    match s.parse::<f64>() {
+        Ok(x) => format!("{:016x}", x.to_bits()),
+        Err(_) => format!("badfloat({s})"),
+    }
+}
+
+fn dash(s: &str) -> String {
+    if s.is_empty() {
+        "-".to_string()
+    } else {
+        s.to_string()
+    }
+}
+
+/// rows of a CSV in canonical form; columns: serial, ticks|-, then the payload columns (`-` when empty)
+pub fn rows_obs(bin: Bin, csv: &Option<Vec<u8>>) -> String {
+    let Some(csv) = csv else {
+        return "fail".to_string();
+    };
+    let text = String::from_utf8_lossy(&strip_comments(csv)).to_string();
+    let mut lines = text.lines();
+    let header = match bin {
+        Bin::Vertices => "serial_number,trg_time,reconstructed_x,reconstructed_y,reconstructed_z",
+        Bin::Scalers => "serial_number,trg_time,input,drift_veto,scaledown,pulser,output",
+    };
+    let mut rows = Vec::new();
+    // the csv writer emits the header with the first row: a run without main events gives no header
+    if let Some(h) = lines.next() {
+        if h != header {
+            return format!("badheader({h})");
+        }
+    }
+    for l in lines {
+        let c: Vec<&str> = l.split(',').collect();
+        if c.len() != header.split(',').count() {
+            return format!("badrow({l})");
+        }
+        let time = if c[1].is_empty() { "-".to_string() } else { ticks_of(c[1]) };
+        let mut r = vec![c[0].to_string(), time];
+        for x in &c[2..] {
+            r.push(match bin {
+                Bin::Vertices => f64_bits(x),
+                Bin::Scalers => dash(x),
+            });
+        }
+        rows.push(r.join(","));
+    }
+    format!("ok {}:{}", rows.len(), rows.join(";"))
+}
+
+// ---------------------------------------------------------------------------------------------
+// the row model re-stated over what the library returns in-process (oracle of `relc19l`)
+// ---------------------------------------------------------------------------------------------
+fn scan(items: Vec<(u32, Option<(u32, Vec<String>)>)>, ncols: usize) -> String {
+    let mut previous: Option<u32> = None;
+    let mut cumulative: u64 = 0;
+    let mut rows = Vec::new();
+    for (serial, d) in items {
+        match d {
+            Some((ts, cols)) => {
+                if let Some(p) = previous {
+                    cumulative += u64::from(ts.wrapping_sub(p));
+                }
+                previous = Some(ts);
+                rows.push(format!("{serial},{cumulative},{}", cols.join(",")));
+            }
+            None => {
+                // an undecodable event before any decodable one makes 0 the reference timestamp
+                if previous.is_none() {
+                    previous = Some(0);
+                }
+                rows.push(format!("{serial},-,{}", vec!["-"; ncols].join(",")));
+            }
+        }
+    }
+    format!("ok {}:{}", rows.len(), rows.join(";"))
+}
+
+/// expected observations (vertices, scalers) computed from the library in this process; None = refused
+fn library_rows(fs: &[FileD], perm: &[usize]) -> (String, String) {
+    let args: Vec<&FileD> = perm.iter().map(|&i| &fs[i]).collect();
+    let known = |x: &str| x == "mid" || x == "lz4";
+    let mut sorted = args.clone();
+    sorted.sort_by_key(|f| f.t0);
+    let refused = args.iter().any(|f| !known(&f.ext))
+        || args.iter().any(|f| f.run != args[0].run)
+        || sorted.windows(2).any(|w| w[0].t0 == w[1].t0)
+        || sorted.windows(2).any(|w| w[1].t0.wrapping_sub(w[0].t1) > 1);
+    if refused {
+        return ("fail".to_string(), "fail".to_string());
+    }
+    let run = args[0].run;
+    let mut v_items = Vec::new();
+    let mut s_items = Vec::new();
+    for f in sorted {
+        for e in f.evs.iter().filter(|e| e.id == 1) {
+            let bs = banks(e);
+            let v = match MainEvent::try_from_banks(run, bs.iter().map(|(n, d)| (*n, &d[..]))) {
+                Ok(m) => {
+                    let vx = m.vertex();
+                    let col = |x: Option<f64>| x.map_or("-".to_string(), |x| format!("{:016x}", x.to_bits()));
+                    Some((
+                        m.timestamp(),
+                        vec![
+                            col(vx.map(|p| p.x.value)),
+                            col(vx.map(|p| p.y.value)),
+                            col(vx.map(|p| p.z.value)),
+                        ],
+                    ))
+                }
+                Err(_) => None,
+            };
+            v_items.push((e.serial, v));
+            let trg: Vec<&(&str, Vec<u8>)> = bs.iter().filter(|(n, _)| *n == "ATAT").collect();
+            let s = if trg.len() == 1 {
+                TrgPacket::try_from(&trg[0].1[..]).ok().map(|p| {
+                    let o = |x: Option<u32>| x.map_or("-".to_string(), |x| x.to_string());
+                    (
+                        p.timestamp(),
+                        vec![
+                            p.input_counter().to_string(),
+                            o(p.drift_veto_counter()),
+                            o(p.scaledown_counter()),
+                            p.pulser_counter().to_string(),
+                            p.output_counter().to_string(),
+                        ],
+                    )
+                })
+            } else {
+                None
+            };
+            s_items.push((e.serial, s));
+        }
+    }
+    (scan(v_items, 3), scan(s_items, 5))
+}
+
+// ---------------------------------------------------------------------------------------------
+// observations
+// ---------------------------------------------------------------------------------------------
+fn scratch_root() -> PathBuf {
+    // `gen <property> <tier> <seed> <outdir>`: scratch under the output directory; `obs`: under the temp dir
+    let a: Vec<String> = std::env::args().collect();
+    let base = if a.len() >= 6 && a[1] == "gen" { PathBuf::from(&a[5]) } else { std::env::temp_dir() };
+    base.join(format!("c19-scratch-{}", std::process::id()))
+}
+
+struct Scratch {
+    dir: PathBuf,
+    names: Vec<String>,
+}
+impl Scratch {
+    fn new(fs: &[FileD]) -> Scratch {
+        let k = COUNTER.fetch_add(1, std::sync::atomic::Ordering::SeqCst);
+        let dir = scratch_root().join(format!("run{k}"));
+        let names = write_run(&dir, fs);
+        Scratch { dir, names }
+    }
+    fn args(&self, perm: &[usize]) -> Vec<String> {
+        perm.iter().map(|&i| self.names[i].clone()).collect()
+    }
+    fn run(&self, bin: Bin, perm: &[usize], threads: u32) -> Option<Vec<u8>> {
+        invoke(bin, &self.dir, &self.args(perm), threads)
+    }
+}
+impl Drop for Scratch {
+    fn drop(&mut self) {
+        let _ = std::fs::remove_dir_all(&self.dir);
+        let _ = std::fs::remove_dir(scratch_root());
+    }
+}
+
+fn obs_main(v: &Option<Vec<u8>>, s: &Option<Vec<u8>>) -> String {
+    format!("V={} S={}", rows_obs(Bin::Vertices, v), rows_obs(Bin::Scalers, s))
+}
+
+fn same(a: &Option<Vec<u8>>, b: &Option<Vec<u8>>) -> bool {
+    match (a, b) {
+        (None, None) => true,
+        (Some(x), Some(y)) => strip_comments(x) == strip_comments(y),
+        _ => false,
+    }
+}
+
+fn holds(ok: bool, detail: String) -> String {
+    if ok {
+        "holds".to_string()
+    } else {
+        format!("fails {detail}")
+    }
+}
+
+pub fn observe_line(line: &str) -> Option<String> {
+    let mut it = line.splitn(3, ' ');
+    let tag = it.next()?;
+    if !matches!(tag, "c19" | "relc19t" | "relc19p" | "relc19l") {
+        return None;
+    }
+    let (Some(perm_s), Some(run_s)) = (it.next(), it.next()) else {
+        return Some("bad-case".to_string());
+    };
+    let Some(fs) = parse_run(run_s) else {
+        return Some("bad-case".to_string());
+    };
+    let sc = Scratch::new(&fs);
+    match tag {
+        "relc19p" => {
+            let perms: Option<Vec<Vec<usize>>> = perm_s.split(',').map(|p| parse_perm(p, fs.len())).collect();
+            let Some(perms) = perms else {
+                return Some("bad-case".to_string());
+            };
+            let mut first: Option<(Option<Vec<u8>>, Option<Vec<u8>>)> = None;
+            for p in &perms {
+                let v = sc.run(Bin::Vertices, p, 1);
+                let s = sc.run(Bin::Scalers, p, 1);
+                match &first {
+                    None => first = Some((v, s)),
+                    Some((v0, s0)) => {
+                        if !same(v0, &v) || !same(s0, &s) {
+                            return Some(format!("fails order {}", show_perm(p)));
+                        }
+                    }
+                }
+            }
+            Some("holds".to_string())
+        }
+        _ => {
+            let Some(perm) = parse_perm(perm_s, fs.len()) else {
+                return Some("bad-case".to_string());
+            };
+            match tag {
+                "c19" => {
+                    let v = sc.run(Bin::Vertices, &perm, 1);
+                    let s = sc.run(Bin::Scalers, &perm, 1);
+                    Some(obs_main(&v, &s))
+                }
+                "relc19t" => {
+                    let v1 = sc.run(Bin::Vertices, &perm, THREADS[0]);
+                    for &t in &THREADS[1..] {
+                        if !same(&v1, &sc.run(Bin::Vertices, &perm, t)) {
+                            return Some(format!("fails threads {t}"));
+                        }
+                    }
+                    Some("holds".to_string())
+                }
+                _ => {
+                    let v = sc.run(Bin::Vertices, &perm, 1);
+                    let s = sc.run(Bin::Scalers, &perm, 1);
+                    let (lv, ls) = library_rows(&fs, &perm);
+                    let (ov, os) = (rows_obs(Bin::Vertices, &v), rows_obs(Bin::Scalers, &s));
+                    Some(holds(
+                        lv == ov && ls == os,
+                        format!("library V={lv} S={ls} csv V={ov} S={os}"),
+                    ))
+                }
+            }
+        }
+    }
+}
+
+// ---------------------------------------------------------------------------------------------
+// generators
+// ---------------------------------------------------------------------------------------------
+fn permutations(n: usize) -> Vec<Vec<usize>> {
+    fn go(cur: &mut Vec<usize>, used: &mut Vec<bool>, n: usize, out: &mut Vec<Vec<usize>>) {
+        if cur.len() == n {
+            out.push(cur.clone());
+            return;
+        }
+        for i in 0..n {
+            if !used[i] {
+                used[i] = true;
+                cur.push(i);
+                go(cur, used, n, out);
+                cur.pop();
+                used[i] = false;
+            }
+        }
+    }
+    let mut out = Vec::new();
+    go(&mut Vec::new(), &mut vec![false; n], n, &mut out);
+    out
+}
+
+/// timestamp stream of a run: how the 32-bit counter moves from one main event to the next
+struct Clock {
+    mode: u64,
+    ts: u32,
+}
+impl Clock {
+    fn next(&mut self, r: &mut Rng) -> u32 {
+        let step: u32 = match self.mode {
+            0 => r.range(1, 1000) as u32,                               // dense triggers
+            1 => 0x7FFF_FF00u32.wrapping_add(r.below(0x200) as u32),    // about half a period: wraps every other event
+            2 => r.next() as u32,                                        // anything
+            3 => r.pick(&[0u32, 1, 2, 0x7FFF_FFFF, 0x8000_0000, 0x8000_0001, u32::MAX - 1, u32::MAX]),
+            4 => 0,                                                      // counter stands still
+            _ => 0xFFFF_FF00u32.wrapping_add(r.below(0x100) as u32),    // just short of a full period
+        };
+        let v = self.ts;
+        self.ts = self.ts.wrapping_add(step);
+        if self.mode == 3 && r.chance(1, 4) {
+            self.ts = r.pick(&[0u32, 1, u32::MAX, u32::MAX - 1, 0x8000_0000]);
+        }
+        v
+    }
+}
+
+fn gen_event(r: &mut Rng, clock: &mut Clock, serial: &mut u32, force: Option<char>) -> Ev {
+    let class = r.below(10);
+    let id: u16 = if force.is_some() || class < 6 {
+        1
+    } else if class < 8 {
+        4
+    } else if class < 9 {
+        8
+    } else {
+        r.pick(&[0u16, 2, 3, 5, 9, 0x7FFF, 0xFFFF, 0x0101])
+    };
+    let kind = match force {
+        Some(k) => k,
+        None if id == 1 => {
+            if r.chance(3, 4) {
+                r.pick(&KINDS_OK)
+            } else {
+                r.pick(&KINDS_BAD)
+            }
+        }
+        // other event types: a chronobox-like bank, nothing, or even a valid TRG bank (must not give a row)
+        None => r.pick(&['b', 'm', 'g', 'j', 'c']),
+    };
+    let mut c = [
+        r.boundary(u32::MAX as u64) as u32,
+        r.boundary(u32::MAX as u64) as u32,
+        r.boundary(u32::MAX as u64) as u32,
+        r.boundary(u32::MAX as u64) as u32,
+    ];
+    c.sort();
+    let s = if r.chance(1, 12) { r.pick(&[0u32, 1, u32::MAX, u32::MAX - 1, 0x8000_0000]) } else { *serial };
+    *serial = serial.wrapping_add(1 + r.below(2) as u32);
+    let ts = if id == 1 { clock.next(r) } else { r.next() as u32 };
+    Ev { id, kind, serial: s, ts, inp: c[3], drift: c[2], sd: c[1], pulser: r.boundary(u32::MAX as u64) as u32, out: c[0] }
+}
+
+/// a run of `nf` contiguous files (initial timestamps distinct, final = next initial or next initial - 1)
+fn gen_run(r: &mut Rng, nf: usize, variant: u64) -> Vec<FileD> {
+    let run = r.pick(&[0u32, 1, 4418, 9277, 11084, u32::MAX]);
+    let mut clock = Clock { mode: variant % 6, ts: r.pick(&[0u32, 1, 0xFFFF_FF00, 0x8000_0000, 12345]) };
+    if r.chance(1, 2) {
+        clock.ts = r.next() as u32;
+    }
+    let mut serial = r.pick(&[0u32, 1, 1000, u32::MAX - 20]);
+    // initial timestamps, ascending, boundary-biased
+    let mut t0s: Vec<u32> = Vec::new();
+    while t0s.len() < nf {
+        let t = match r.below(6) {
+            0 => r.pick(&[0u32, 1, u32::MAX, u32::MAX - 1]),
+            1 => 1_700_000_000 + r.below(5) as u32,
+            _ => 1_600_000_000 + r.below(100_000_000) as u32,
+        };
+        if !t0s.contains(&t) {
+            t0s.push(t);
+        }
+    }
+    t0s.sort();
+    let mut fs = Vec::new();
+    for i in 0..nf {
+        let n_ev = match r.below(8) {
+            0 => 0,
+            1 => 1,
+            2 => 2,
+            3 => 60,
+            4 => 59,
+            _ => r.range(3, 58) as usize,
+        };
+        let mut evs = Vec::new();
+        for k in 0..n_ev {
+            // undecodable main events at the start, in the middle and at the end of files, by plan
+            let force = match (variant % 4, k) {
+                (1, 0) => Some(r.pick(&KINDS_BAD)),
+                (2, k) if k + 1 == n_ev => Some(r.pick(&KINDS_BAD)),
+                (3, k) if k == 0 || k + 1 == n_ev || k == n_ev / 2 => Some(r.pick(&KINDS_BAD)),
+                _ => None,
+            };
+            evs.push(gen_event(r, &mut clock, &mut serial, force));
+        }
+        let t1 = if i + 1 < nf { t0s[i + 1] - r.below(2) as u32 } else { t0s[i].wrapping_add(r.below(500) as u32) };
+        let ext = if r.chance(1, 2) { "mid" } else { "lz4" };
+        fs.push(FileD { run, t0: t0s[i], t1, ext: ext.to_string(), evs });
+    }
+    if variant % 7 == 6 && nf > 0 {
+        // every main event of the run undecodable
+        for f in fs.iter_mut() {
+            for e in f.evs.iter_mut() {
+                if e.id == 1 && KINDS_OK.contains(&e.kind) {
+                    e.kind = 'c';
+                }
+            }
+        }
+    }
+    fs
+}
+
+fn label_of(fs: &[FileD]) -> String {
+    format!("run-{}-files", fs.len())
+}
+
+fn has_main(fs: &[FileD]) -> bool {
+    fs.iter().any(|f| f.evs.iter().any(|e| e.id == 1))
+}
+
+/// all lines of one run: per argument order the observation and the thread relation, then the order relation
+/// and the library relation.  Each binary invocation is done once and shared between the lines.
+fn emit_run(s: &mut Sink, fs: &[FileD], perms: &[Vec<usize>], label: &str, with_threads: bool) {
+    let sc = Scratch::new(fs);
+    let text = show_run(fs);
+    let mut first: Option<(Option<Vec<u8>>, Option<Vec<u8>>)> = None;
+    let mut order_ok = true;
+    let mut order_detail = String::new();
+    for p in perms {
+        let v1 = sc.run(Bin::Vertices, p, 1);
+        let sv = sc.run(Bin::Scalers, p, 1);
+        let nontrivial = v1.is_some() && has_main(fs);
+        s.put(&format!("c19 {} {}", show_perm(p), text), &obs_main(&v1, &sv), label, nontrivial);
+        if with_threads {
+            let mut bad = None;
+            for &t in &THREADS[1..] {
+                if !same(&v1, &sc.run(Bin::Vertices, p, t)) {
+                    bad = Some(t);
+                }
+            }
+            s.put(
+                &format!("relc19t {} {}", show_perm(p), text),
+                &holds(bad.is_none(), format!("threads {}", bad.unwrap_or(0))),
+                &format!("rel-threads-{}", fs.len()),
+                nontrivial,
+            );
+        }
+        match &first {
+            None => {
+                let (lv, ls) = library_rows(fs, p);
+                let (ov, os) = (rows_obs(Bin::Vertices, &v1), rows_obs(Bin::Scalers, &sv));
+                s.put(
+                    &format!("relc19l {} {}", show_perm(p), text),
+                    &holds(lv == ov && ls == os, format!("library V={lv} S={ls} csv V={ov} S={os}")),
+                    "rel-library",
+                    nontrivial,
+                );
+                first = Some((v1, sv));
+            }
+            Some((v0, s0)) => {
+                if !same(v0, &v1) || !same(s0, &sv) {
+                    order_ok = false;
+                    order_detail = format!("order {}", show_perm(p));
+                }
+            }
+        }
+    }
+    if perms.len() > 1 {
+        let ps: Vec<String> = perms.iter().map(|p| show_perm(p)).collect();
+        s.put(
+            &format!("relc19p {} {}", ps.join(","), text),
+            &holds(order_ok, order_detail),
+            &format!("rel-orders-{}", fs.len()),
+            first.as_ref().map_or(false, |f| f.0.is_some()) && has_main(fs),
+        );
+    }
+}
+
+/// refusal variants of a good run (the model must say `fail` too)
+fn refusals(r: &mut Rng, base: &[FileD]) -> Vec<(String, Vec<FileD>, Vec<Vec<usize>>)> {
+    let n = base.len();
+    let ident: Vec<usize> = (0..n).collect();
+    let rev: Vec<usize> = (0..n).rev().collect();
+    let mut out = Vec::new();
+    // a file of another run (first, last or any position)
+    if n >= 2 {
+        let mut fs = base.to_vec();
+        let any = r.below(n as u64) as usize;
+        let i = r.pick(&[0, n - 1, any]);
+        fs[i].run = fs[i].run.wrapping_add(r.pick(&[1u32, u32::MAX, 0x8000_0000]));
+        out.push(("refuse-two-runs".to_string(), fs, vec![ident.clone(), rev.clone()]));
+        // two files with the same initial timestamp
+        let mut fs = base.to_vec();
+        let i = r.below(n as u64 - 1) as usize;
+        fs[i + 1].t0 = fs[i].t0;
+        out.push(("refuse-duplicate-t0".to_string(), fs, vec![ident.clone(), rev.clone()]));
+        // a file missing in the middle: the next initial timestamp is not the previous final one (+1)
+        let mut fs = base.to_vec();
+        let i = r.below(n as u64 - 1) as usize;
+        fs[i].t1 = r.pick(&[fs[i + 1].t0.wrapping_sub(2), fs[i + 1].t0.wrapping_add(1), fs[i].t0]);
+        if fs[i + 1].t0.wrapping_sub(fs[i].t1) > 1 {
+            out.push(("refuse-gap".to_string(), fs, vec![ident.clone(), rev.clone()]));
+        }
+    }
+    // the same file given twice
+    {
+        let mut p = ident.clone();
+        p.push(r.below(n as u64) as usize);
+        out.push(("refuse-same-file-twice".to_string(), base.to_vec(), vec![p]));
+    }
+    // unknown extension
+    {
+        let mut fs = base.to_vec();
+        let i = r.below(n as u64) as usize;
+        fs[i].ext = r.pick(&["gz", "MID", "", "mid4", "lz", "midlz4", "Lz4", "txt"]).to_string();
+        out.push(("refuse-extension".to_string(), fs, vec![ident.clone(), rev]));
+    }
+    out
+}
+
+pub fn run(tier: &str, seed: u64, s: &mut Sink) {
+    let mut r = Rng::new(seed ^ 0xC19);
+    let thorough = tier == "thorough";
+    // fixed boundary runs first
+    let e = |id: u16, kind: char, serial: u32, ts: u32| Ev { id, kind, serial, ts, inp: 9, drift: 7, sd: 5, pulser: 3, out: 2 };
+    let f = |t0: u32, t1: u32, ext: &str, evs: Vec<Ev>| FileD { run: 9277, t0, t1, ext: ext.to_string(), evs };
+    let fixed: Vec<Vec<FileD>> = vec![
+        // the wrap of DESIGN.md A.11: 0xFFFFFF00 -> 0x100 is 0x200 ticks
+        vec![f(100, 200, "mid", vec![e(1, 'g', 0, 0xFFFF_FF00), e(1, 'g', 1, 0x100)])],
+        // no event at all; no main event
+        vec![f(100, 200, "lz4", vec![])],
+        vec![f(100, 200, "mid", vec![e(4, 'b', 0, 5), e(8, 'm', 0, 6), e(2, 'g', 7, 7)])],
+        // undecodable first event: the first decodable event does not start at 0
+        vec![f(0, 0, "mid", vec![e(1, 'c', 0, 1), e(1, 'g', 1, 1000), e(1, 'm', 2, 0), e(1, 'g', 3, 999)])],
+        // an event the vertices binary cannot decode but the scalers binary can
+        vec![
+            f(u32::MAX, 7, "lz4", vec![e(1, 'g', 5, 10), e(1, 'u', 6, 20)]),
+            f(5, u32::MAX, "mid", vec![e(1, 'a', 3, 4_000_000_000), e(1, 'j', 4, 5)]),
+        ],
+    ];
+    for fs in &fixed {
+        let perms = permutations(fs.len());
+        emit_run(s, fs, &perms, "fixed", true);
+    }
+    // (number of files, number of runs)
+    let plan: &[(usize, usize)] = if thorough { &[(1, 40), (2, 30), (3, 20), (4, 12)] } else { &[(1, 2), (2, 2), (3, 2), (4, 1)] };
+    let mut variant = r.below(1000);
+    let mut last_good: Vec<Vec<FileD>> = Vec::new();
+    for &(nf, count) in plan {
+        for _ in 0..count {
+            variant += 1;
+            let fs = gen_run(&mut r, nf, variant);
+            let perms = permutations(nf);
+            emit_run(s, &fs, &perms, &label_of(&fs), true);
+            last_good.push(fs);
+        }
+    }
+    // refusals, derived from good runs of each size
+    let picks: Vec<Vec<FileD>> = if thorough {
+        last_good.clone()
+    } else {
+        vec![last_good[0].clone(), last_good[3].clone(), last_good[5].clone()]
+    };
+    for base in &picks {
+        for (label, fs, perms) in refusals(&mut r, base) {
+            emit_run(s, &fs, &perms, &label, false);
+        }
+    }
+    eprintln!("c19: {} binary invocations", INVOCATIONS.load(std::sync::atomic::Ordering::SeqCst));
 }
